@@ -669,7 +669,8 @@ func window(seq []Entry, i int) []Entry {
 // Features summarises what a history exercised (labels for the evidence histogram and
 // the per-property non-triviality rules).
 type Features struct {
-	Crashes           int  // failures inside the budget + the budget-exhausting one
+	Crashes           int  // failures inside the budget + the budget-exhausting one + InternalError restarts
+	InternalCrashes   int  // panics with an *actor.InternalError (restart outside the budget)
 	MidBatchCrash     bool // a failing message that is neither first nor last of its queued window
 	CrashInReplay     bool // a failure while the restart buffer was being replayed
 	LifecycleCrash    bool
@@ -688,7 +689,8 @@ type Features struct {
 
 func Classify(spec Spec, sim *Sim) Features {
 	f := Features{Pills: len(sim.Pills), DeadLetters: len(sim.DLs), SpawnSends: spec.InitSends+spec.SpawnSends > 0}
-	f.Crashes = len(sim.Restarted) + sim.MaxExceeded
+	f.Crashes = len(sim.Restarted) + sim.MaxExceeded + sim.InternalRestarts
+	f.InternalCrashes = sim.InternalRestarts
 	f.MaxDeath = sim.MaxExceeded > 0
 	for _, d := range sim.Deaths {
 		if d.Cause == "pill" {
@@ -787,6 +789,7 @@ func (f Features) Labels() []string {
 	}
 	add(f.Crashes > 0, "crash")
 	add(f.Crashes > 1, "multi-crash")
+	add(f.InternalCrashes > 0, "internal-error-restart")
 	add(f.MidBatchCrash, "mid-batch-crash")
 	add(f.CrashInReplay, "crash-in-replay")
 	add(f.LifecycleCrash, "lifecycle-crash")
